@@ -47,10 +47,10 @@ class DrivenHost(Host):
         kw = dict(line_state=K)
         if d is not None: kw.update(d.inputs())
         if self.extra: kw = {**self.extra, **kw}
-        for _ in range(64):
+        for _ in range(200):
             n, first, last = cur.hold(QUIET_CHUNK, **kw)
             if last.tx_valid: raise PruneCollision()
-            assert n == QUIET_CHUNK, "observation changed during a bus-idle period with constant inputs"
+            if n != QUIET_CHUNK: continue            # an observed strobe (e.g. the response-slot pulse) passed by; keep idling
             before = cur.state
             cur.hold(1, **kw)
             if cur.state == before: break            # fixed point: more idle time changes nothing
@@ -73,6 +73,9 @@ class Producer:
         self.pfx, self.flush_name = pfx, flush_name
         self._presented = None
         self._moved = True               # something happened in the last cycle (unknown before the first one)
+        self.t = 0                       # cycles seen by this driver instance (= cycles of the current action)
+        self.acc_t = {}                  # position -> cycle in which that byte was accepted (this action only)
+        self.rfr_t = []                  # cycles in which the observed `rfr` (tokenizer.ready_for_response) was high, if observed
         self.names = (pfx + "valid", pfx + "payload", pfx + "last", pfx + "ready")
 
     def clone(self):
@@ -103,8 +106,11 @@ class Producer:
     def observe(self, o):
         if self._presented is not None and getattr(o, self.names[3]):
             if self._presented: self.lasts = self.lasts + (self.pos,)
+            self.acc_t[self.pos] = self.t
             self.pos += 1
             self._moved = True
+        if getattr(o, "rfr", 0): self.rfr_t.append(self.t)
+        self.t += 1
 
     def busy(self):
         return self._moved
